@@ -454,7 +454,7 @@ def get_phase_blocks(
         if variant.is_snv():
             stats.add_heterozygous_snvs(1)
 
-        if phase is None:
+        if phase is None or phase.block_id is None:
             stats.add_unphased()
             continue
 
